@@ -1,6 +1,7 @@
 package props
 
 import (
+	"encoding/json"
 	"go/ast"
 	"go/parser"
 	"go/token"
@@ -114,7 +115,7 @@ func namedUint16Constants(rel string) []uint16 {
 	return out
 }
 
-// c14SourceWords: the short string literals (1..12 printable characters without blanks or format verbs; import paths
+// c14SourceWords: the short string literals (1..20 printable characters without blanks or format verbs; import paths
 // excluded) of the files a helper lives in, read from the current source like the integer alphabet: a label, prefix or
 // suffix that a new branch compares with enters the alphabet by itself. At most 32 words (shortest first); more are
 // reported through the second result.
@@ -162,7 +163,7 @@ func c14SourceWords(helper string) (words []string, dropped int) {
 					return true
 				}
 				s, err := strconv.Unquote(x.Value)
-				if err != nil || len(s) < 1 || len(s) > 12 || strings.ContainsAny(s, " %") {
+				if err != nil || len(s) < 1 || len(s) > 20 || strings.ContainsAny(s, " %") {
 					return true
 				}
 				for i := 0; i < len(s); i++ {
@@ -184,10 +185,86 @@ func c14SourceWords(helper string) (words []string, dropped int) {
 		}
 		return words[i] < words[j]
 	})
+	c14AllWords[key] = append([]string{}, words...)
 	if len(words) > 32 {
+		// words the pinned tree does not have stay in whatever else is cut
+		base := c14BaselineWords()[key]
+		isBase := map[string]bool{}
+		for _, w := range base {
+			isBase[w] = true
+		}
+		var novel, old []string
+		for _, w := range words {
+			if isBase[w] || base == nil {
+				old = append(old, w)
+			} else {
+				novel = append(novel, w)
+			}
+		}
+		words = append(novel, old...)
 		dropped = len(words) - 32
 		words = words[:32]
 	}
 	c14WordCache[key] = words
 	return words, dropped
+}
+
+var c14AllWords = map[string][]string{}
+
+// c14NovelWords: the words of the helper's current source that the pinned tree (mc/spec/source_words.json, written by
+// `vcheck dump-source-words` on the pinned tree) does not contain. Where the tree under test says something new, the
+// exploration goes deeper: sequences of up to five of the new words (at most eight of them).
+func c14NovelWords(helper string) []string {
+	key := helper
+	if strings.HasPrefix(helper, "nasConvert.") {
+		key = "nasConvert"
+	}
+	c14SourceWords(helper)
+	base, ok := c14BaselineWords()[key]
+	if !ok {
+		return nil
+	}
+	isBase := map[string]bool{"a": true, "internet": true}
+	for _, w := range base {
+		isBase[w] = true
+	}
+	var out []string
+	for _, w := range c14AllWords[key] {
+		if !isBase[w] {
+			out = append(out, w)
+		}
+	}
+	if len(out) > 8 {
+		out = out[:8]
+	}
+	return out
+}
+
+var c14Baseline map[string][]string
+
+func c14BaselineWords() map[string][]string {
+	if c14Baseline != nil {
+		return c14Baseline
+	}
+	c14Baseline = map[string][]string{}
+	b, err := os.ReadFile(filepath.Join(os.Getenv("VERIF_DIR"), "mc", "spec", "source_words.json"))
+	if err == nil {
+		json.Unmarshal(b, &c14Baseline) //nolint:errcheck
+	}
+	return c14Baseline
+}
+
+// C14DumpSourceWords lists the word alphabet of every helper group of the current tree (to pin the baseline).
+func C14DumpSourceWords() map[string][]string {
+	out := map[string][]string{}
+	for i := range c14Helpers {
+		h := &c14Helpers[i]
+		key := h.name
+		if strings.HasPrefix(h.name, "nasConvert.") {
+			key = "nasConvert"
+		}
+		c14SourceWords(h.name)
+		out[key] = c14AllWords[key]
+	}
+	return out
 }
